@@ -145,10 +145,17 @@ class C31(Check):
                         out.probe("rerecorded_after_loss")
                         if self.store_has(h):
                             lost.discard(h)
-                    if h in torn and self.store_has(h) and os.path.getsize(self.store_path(h)) == torn_size[h]:
-                        # recording again rewrote the damaged object: held to full read-back again
-                        out.probe("rerecorded_after_tear_repaired")
-                        torn.discard(h)
+                    if h in torn and cfg["store"] is not None and not isinstance(v, Blob):
+                        import sys as _sys
+
+                        data = backend.type_registry.get_value(v).serialize()
+                        if _sys.getsizeof(data) >= cfg["store"]:
+                            # the value was just recorded again *through the store* (put() was
+                            # called with the full bytes): from here on it is a recorded value
+                            # like any other and has to read back
+                            out.probe("rerecorded_after_tear_repaired")
+                            torn.discard(h)
+                            lost.discard(h)
                     model[h] = v
                     # offloaded = the row keeps no bytes (the object in the store is the only copy)
                     if self.store_has(h) and self.row_is_empty(backend, h):
